@@ -6,7 +6,8 @@ Behaviour-preserving spellings are collapsed so that rules need to know one form
   x = x + e    -> x += e          x = x - e    -> x -= e      (simple names)
   if not c: A else: B  ->  if c: B else: A       (both branches present, no elif chain on the swapped side)
   `pass` dropped from bodies that have other statements
-  while True: if c: break; <body>  ->  while not c: <body>
+  while True: if c: break; <body>  ->  while not c: <body>     (also `if c: return` when the loop ends the function)
+  a trailing `return` / `return None` of a function body is dropped
   t = <expr>; return t  ->  return <expr>        (t bound once and read once in the function)
 Positions (lineno / col_offset) of the original nodes are kept.
 """
@@ -95,6 +96,24 @@ class Normalizer(ast.NodeTransformer):
     def visit_FunctionDef(self, node):
         self.generic_visit(node)
         node.body = self._clean_body(node.body)
+        # a loop that ends the function: `while True: if c: return; body` -> `while not c: body`, and a bare `return` right in the
+        # loop body is a `break`
+        # falling off the end returns None: a trailing `return` / `return None` is dropped
+        while len(node.body) > 1 and isinstance(node.body[-1], ast.Return) and (
+                node.body[-1].value is None or (isinstance(node.body[-1].value, ast.Constant) and node.body[-1].value.value is None)):
+            node.body.pop()
+        last = node.body[-1] if node.body else None
+        if isinstance(last, ast.While) and not last.orelse:
+            def bare(st):
+                return isinstance(st, ast.Return) and (st.value is None or (isinstance(st.value, ast.Constant) and st.value.value is None))
+            if isinstance(last.test, ast.Constant) and last.test.value is True and len(last.body) >= 2:
+                first = last.body[0]
+                if isinstance(first, ast.If) and not first.orelse and len(first.body) == 1 and bare(first.body[0]):
+                    last.test = negate(first.test)
+                    last.body = last.body[1:]
+            for st in last.body:
+                if isinstance(st, ast.If) and not st.orelse and len(st.body) == 1 and bare(st.body[0]):
+                    st.body = [ast.copy_location(ast.Break(), st.body[0])]
         self._inline_return_temps(node)
         return node
 
